@@ -6,8 +6,8 @@
    (any credential, any level mask, any certificate type and method) and every behaviour of the
    shell-expansion oracle. *)
 From Coq Require Import ZArith.
-From KM Require Import Base.Bytes Model.Auth Model.Certgen Model.CertgenCases
-                       Proofs.CertgenSpec Proofs.CertgenAuth Proofs.Certgen.
+From KM Require Import Base.Bytes Model.Auth Model.Certgen Model.CertgenCases Model.CertgenLife
+                       Proofs.CertgenSpec Proofs.CertgenAuth Proofs.Certgen Proofs.CertgenLife.
 From KM Require Model.Seal.
 Open Scope N_scope.
 
@@ -201,6 +201,88 @@ Theorem c01_old_refuted :
   (exists st q c, certgen_old no_expand true st 0%Z true q = Refused c /\ c < 400).
 Proof. exact old_refuted. Qed.
 Print Assumptions c01_old_refuted.
+
+(* ---- the life of one server process (Model/CertgenLife.v): histories of logins, second-factor requests,
+   certificate requests, requests to any other route and unseal operations on ONE RuntimeState.  A session
+   token is a value (signing key, header algorithm, claims); `p_minted` lists the values handed out so far so
+   that a later operation can present "the cookie minted at step i".
+
+   The verdict on a certificate request depends on the presented credential and the configuration only,
+   never on earlier requests: after ANY history of requests h - second factors completed with the very
+   cookie that is presented, other users' logins, failed attempts - the answer to (q, cookie minted at
+   step i) is the answer the process gave / would have given before h ... *)
+Theorem c01_verdict_history_independent : forall alg_of expand now life lim lim' p h ref q,
+  (forall o, In o h -> is_inject o = false) ->
+  (forall i, ref = Some i -> (i < length (p_minted p))%nat) ->
+  snd (step alg_of expand now life lim' (run alg_of expand now life lim p h) (OCertgen ref q)) =
+  snd (step alg_of expand now life lim' p (OCertgen ref q)).
+Proof. exact verdict_history_independent. Qed.
+Print Assumptions c01_verdict_history_independent.
+
+(* ... with unseal operations in the history, only they matter ... *)
+Theorem c01_verdict_depends_on_unseals_only : forall alg_of expand now life lim lim' p h q,
+  snd (step alg_of expand now life lim' (run alg_of expand now life lim p h) (OCertgen None q)) =
+  snd (step alg_of expand now life lim' (run alg_of expand now life lim p (filter is_inject h)) (OCertgen None q)).
+Proof. exact verdict_depends_on_unseals_only. Qed.
+Print Assumptions c01_verdict_depends_on_unseals_only.
+
+(* ... a token handed out is the same value for ever ... *)
+Theorem c01_minted_token_stable : forall alg_of expand now life lim p h i m,
+  nth_error (p_minted p) i = Some m -> nth_error (p_minted (run alg_of expand now life lim p h)) i = Some m.
+Proof. exact minted_stable. Qed.
+Print Assumptions c01_minted_token_stable.
+
+(* ... a second-factor handler hands out a NEW token for the same user whose level is the presented
+   session's level plus the factor, only for a currently valid session, and leaves the presented one as it
+   was ... *)
+Theorem c01_second_factor_mints : forall alg_of expand now life lim p ref bit m',
+  snd (step alg_of expand now life lim p (OSecond ref bit true)) = XMinted m' ->
+  exists m, nth_error (p_minted p) ref = Some m /\ m_sub m' = m_sub m /\ m_level m' = N.lor (m_level m) bit /\
+            nth_error (p_minted (fst (step alg_of expand now life lim p (OSecond ref bit true)))) ref = Some m /\
+            valid_session (issuer_of (p_srv p)) now (see alg_of (keys_of p) m).
+Proof. exact second_factor_mints. Qed.
+Print Assumptions c01_second_factor_mints.
+
+(* ... so the cookie of a password login stays a password-only session whatever was done with it since:
+   presented again after the user completed a second factor with it, it gets no certificate when only
+   second factors are listed *)
+Theorem c01_old_cookie_stays_password_only : forall alg_of expand now life lim lim' p h i m q,
+  (forall o, In o h -> is_inject o = false) ->
+  nth_error (p_minted p) i = Some m -> m_level m = bPassword ->
+  ~ In sPassword (s_cfg (p_srv p)) -> q_tls q = None -> q_basic q = None ->
+  exists code, snd (step alg_of expand now life lim' (run alg_of expand now life lim p h) (OCertgen (Some i) q)) = XCert (Refused code).
+Proof. exact old_cookie_stays_password_only. Qed.
+Print Assumptions c01_old_cookie_stays_password_only.
+
+(* The accepted JWS algorithms are a function of the CURRENT key list (`accepted_algs ks = map alg_of
+   (pubkeys ks)`, jwt.go getJoseKeymastedVerifierList).  Whatever happened since the daemon started - any
+   key files, any peer keys of any type (`alg_of` is any function), any requests while sealed, token-parsing
+   ones included, any number of refused and accepted injections -: once a signer is loaded its key is
+   listed and its algorithm is accepted ... *)
+Theorem c01_own_alg_accepted_after_unseal : forall alg_of expand now life lim c st h k,
+  Seal.signer (keys_of (run alg_of expand now life lim (boot c st) h)) = Some k ->
+  Seal.mem k (Seal.pubkeys (keys_of (run alg_of expand now life lim (boot c st) h))) = true /\
+  Seal.mem (alg_of k) (accepted_algs alg_of (keys_of (run alg_of expand now life lim (boot c st) h))) = true.
+Proof. exact own_alg_accepted_after_unseal. Qed.
+Print Assumptions c01_own_alg_accepted_after_unseal.
+
+(* ... and completeness holds over the whole life cycle: after ANY history from the start, on the unsealed
+   process a password login, a second factor completed with the login's cookie, and an orderly certificate
+   request with the upgraded cookie is SERVED whenever the operator's list accepts password + that factor *)
+Theorem c01_complete_after_unseal : forall alg_of expand now life lim lim' c st h k u bit q,
+  let p := run alg_of expand now life lim (boot c st) h in
+  Seal.signer (keys_of p) = Some k -> (0 <= life)%Z ->
+  let i0 := length (p_minted p) in
+  let p1 := fst (step alg_of expand now life lim' p (OLogin u true)) in
+  let p2 := fst (step alg_of expand now life lim' p1 (OSecond i0 bit true)) in
+  servable expand (p_srv p) q (s_name (p_srv p) u) -> q_tls q = None -> q_target q = s_name (p_srv p) u ->
+  qualifies (s_cfg (p_srv p)) (N.lor bPassword bit) ->
+  exists m0 m1 c,
+    snd (step alg_of expand now life lim' p (OLogin u true)) = XMinted m0 /\ m_level m0 = bPassword /\
+    snd (step alg_of expand now life lim' p1 (OSecond i0 bit true)) = XMinted m1 /\ m_level m1 = N.lor bPassword bit /\
+    snd (step alg_of expand now life lim' p2 (OCertgen (Some (S i0)) q)) = XCert (Issued u c).
+Proof. exact complete_after_unseal_history. Qed.
+Print Assumptions c01_complete_after_unseal.
 
 (* ---- non-vacuity *)
 (* a TOTP session under [TOTP; Okta2FA] is served, the same session under [Okta2FA] is not,
